@@ -44,7 +44,7 @@ func main() {
 		Level: "exploration",
 		Pkg:   "./cmd/c04",
 		Rule: "one case = one prefix of a generated history over {register, authorize, exact duplicate, conflicting authorization (same key other field / same content other signature / fresh key / another device's key), authorization for a banned id, " +
-			"reports (normal, replay, equivocating, re-signed, over-capacity, negative, for a banned device), rotation, clock advance, impact step} followed by two restarts on the same directory. " +
+			"reports (normal, replay, equivocating, re-signed, over-capacity, negative, for a banned device), rotation, clock advance, impact step} followed by two restarts on the same directory; plus long histories (>= 1100 accepted reports in one prefix, i.e. more than the recent-report list holds, with equivocating and fresh reports placed on the positions where that list is cut). " +
 			"Non-trivial = the state before the restart holds at least one device, ban, stored report or archived week; distinct by (history seed, prefix index).",
 		Assumptions: []string{
 			"rotation and impact jobs are gated; a server is never shut down while now−offset > 3200 (the real background loop would rotate first), the clock for catch-up is moved between Close and the next start",
@@ -68,7 +68,8 @@ func main() {
 				"restart.banned_device_with_reports_on_disk", "restart.unregistered", "unregistered.registrable_after_restarts",
 				"changed.register", "changed.authorize", "changed.conflict.same-key", "changed.conflict.resigned", "changed.conflict.fresh-key", "changed.conflict.other-device-key",
 				"changed.report.normal", "changed.report.equivocating", "changed.report.over-capacity", "changed.report.negative", "changed.rotation",
-				"unchanged.duplicate", "state.banned_slots", "state.archived_weeks", "surface_checks", "scripted.completed"} {
+				"unchanged.duplicate", "state.banned_slots", "state.archived_weeks", "surface_checks", "scripted.completed",
+				"long.completed", "long.accepted_reports", "long.recent_list_truncations", "long.equivocation_at_truncation", "long.fresh_at_truncation"} {
 				c.Require(k, 1)
 			}
 		},
@@ -108,6 +109,14 @@ func plan(tier string, seed int64) []run.Batch {
 	}
 	for i := 0; i < nb; i++ {
 		bs = append(bs, run.Batch{Kind: "histories", Seed: seed*100000 + int64(i), N: n, TimeoutS: 400})
+	}
+	// long histories: more accepted reports than the server's recent-report list holds
+	nl := 2
+	if tier == "thorough" {
+		nl = 8
+	}
+	for i := 0; i < nl; i++ {
+		bs = append(bs, run.Batch{Kind: "long", Seed: seed*100000 + 7000 + int64(i), N: 1, TimeoutS: 400, Params: map[string]string{"variant": fmt.Sprint(i % 2)}})
 	}
 	// own process: if shutdown fails there, the instance cannot be stopped any more
 	for i := 0; i < 2; i++ {
@@ -726,10 +735,28 @@ func (h *hist) restartPair(class string, k int) {
 	}
 }
 
+// transport: an HTTP call that never produced a status (after retries) decides nothing.
+func (h *hist) transport(st int, err error) bool {
+	if err != nil && st == 0 {
+		h.r.Inconc(fmt.Sprintf("%s: HTTP transport error while reading a public endpoint: %v", h.tag, err))
+		return true
+	}
+	return false
+}
+
 // surfaces validates the snapshot against the public endpoints (so that "same
 // snapshot" really means "same observable state").
 func (h *hist) surfaces(s *server.VerifSnap) {
+	// reads are idempotent: a transport failure (under heavy CPU contention the server's 2.5 s
+	// read timeout can cut a fresh connection) is retried, never judged
 	st, eq, err := h.Equipment()
+	for try := 0; try < 3 && err != nil && st == 0; try++ {
+		time.Sleep(10 * time.Millisecond)
+		st, eq, err = h.Equipment()
+	}
+	if h.transport(st, err) {
+		return
+	}
 	if err != nil || st != 200 {
 		h.viol("surface-equipment-unavailable", nil, "GET equipment after restart: status %d err %v", st, err)
 		return
@@ -759,6 +786,10 @@ func (h *hist) surfaces(s *server.VerifSnap) {
 			continue
 		}
 		rep, refused, err := h.Sync(id)
+		for try := 0; try < 3 && err != nil; try++ {
+			time.Sleep(10 * time.Millisecond)
+			rep, refused, err = h.Sync(id)
+		}
 		if err != nil || refused {
 			h.viol("surface-sync-unavailable", map[string]interface{}{"dev": id}, "sync for authorized device %d after restart: refused=%v err=%v", id, refused, err)
 		} else {
@@ -776,6 +807,13 @@ func (h *hist) surfaces(s *server.VerifSnap) {
 		pub := s.Equipment[id].PublicKey
 		if s.ShortIDs[pub] == id {
 			st, rr, err := h.RecentReports(pub)
+			for try := 0; try < 3 && err != nil && st == 0; try++ {
+				time.Sleep(10 * time.Millisecond)
+				st, rr, err = h.RecentReports(pub)
+			}
+			if h.transport(st, err) {
+				continue
+			}
 			if err != nil || st != 200 || len(rr) != 4032 {
 				h.viol("surface-recent-reports-unavailable", map[string]interface{}{"dev": id}, "recent-reports for device %d after restart: status %d err %v n=%d", id, st, err, len(rr))
 			} else {
@@ -793,6 +831,13 @@ func (h *hist) surfaces(s *server.VerifSnap) {
 	for half := 0; half < 2; half++ {
 		base := s.Offset + uint32(half*wmodel.Week)
 		st, got, _, err := h.GetStats(fmt.Sprintf("timeslot_offset=%d", base))
+		for try := 0; try < 3 && err != nil && st == 0; try++ {
+			time.Sleep(10 * time.Millisecond)
+			st, got, _, err = h.GetStats(fmt.Sprintf("timeslot_offset=%d", base))
+		}
+		if h.transport(st, err) {
+			continue
+		}
 		if err != nil || st != 200 {
 			h.viol("surface-stats-unavailable", nil, "stats for live week %d after restart: status %d err %v", base, st, err)
 			continue
@@ -818,6 +863,13 @@ func (h *hist) surfaces(s *server.VerifSnap) {
 	for n := 0; n < 2 && len(s.History) > 0; n++ {
 		i := h.rng.Intn(len(s.History))
 		st, got, _, err := h.GetStats(fmt.Sprintf("timeslot_offset=%d", wmodel.Week*i))
+		for try := 0; try < 3 && err != nil && st == 0; try++ {
+			time.Sleep(10 * time.Millisecond)
+			st, got, _, err = h.GetStats(fmt.Sprintf("timeslot_offset=%d", wmodel.Week*i))
+		}
+		if h.transport(st, err) {
+			continue
+		}
 		if err != nil || st != 200 {
 			h.viol("surface-stats-unavailable", nil, "stats for archived week %d after restart: status %d err %v", i, st, err)
 			continue
@@ -1049,6 +1101,144 @@ func (h *hist) runScripted() {
 	}
 }
 
+// opLongReports sends n reports that are all accepted (fresh slots, plus
+// second distinct reports for slots that hold exactly one report) in one
+// prefix. The server keeps a bounded list of recent reports which it cuts in
+// half when it overflows; the positions of the accepted sequence at which
+// that happens are computed from the list length observed before the
+// operation, and equivocating (equivAtCut) or fresh reports are placed on and
+// next to them.
+func (h *hist) opLongReports(n int, equivAtCut bool) string {
+	ds := h.authorizedKnown()
+	if len(ds) == 0 {
+		return ""
+	}
+	now, off := int64(drv.Clock()), int64(h.cur.Offset)
+	lo, hi := now-432, now+432
+	if lo < off {
+		lo = off
+	}
+	if hi > off+4031 {
+		hi = off + 4031
+	}
+	type ds2 struct {
+		d    *drv.Dev
+		slot uint32
+	}
+	var free []ds2
+	for _, d := range ds {
+		arr := h.cur.Reports[d.ID]
+		for s := lo; s <= hi; s++ {
+			if arr != nil && arr[s-off].PowerOutput == 0 {
+				free = append(free, ds2{d, uint32(s)})
+			}
+		}
+	}
+	h.rng.Shuffle(len(free), func(i, j int) { free[i], free[j] = free[j], free[i] })
+	if len(free) < n {
+		h.r.Inconc(fmt.Sprintf("%s: harness error: only %d free slots for a long burst of %d", h.tag, len(free), n))
+		h.dead = true
+		return ""
+	}
+	// positions (1-based, within this burst) whose report overflows the recent list
+	max := server.VerifConsts().MaxRecentReports
+	cut := map[int]bool{}
+	L := len(h.cur.RecentReports)
+	for k := 1; k <= n; k++ {
+		L++
+		if L > max {
+			cut[k] = true
+			L = L / 2
+		}
+	}
+	h.op("long burst of %d accepted reports, clock=%d, recent list holds %d (limit %d), list cut at positions %v, equivocations there: %v", n, now, len(h.cur.RecentReports), max, keys(cut), equivAtCut)
+	var single []refenc.Report // slots of this burst that hold exactly one plain report
+	sent, fi := 0, 0
+	for k := 1; k <= n; k++ {
+		near := cut[k-1] || cut[k] || cut[k+1]
+		wantEquiv := (near && equivAtCut) || (!near && k%9 == 0)
+		if wantEquiv && len(single) > 0 {
+			i := h.rng.Intn(len(single))
+			first := single[i]
+			single = append(single[:i], single[i+1:]...)
+			d := h.all[first.ID]
+			h.Inject(d.Report(first.Slot, first.Power+1+uint64(h.rng.Intn(9))).Bytes())
+			if cut[k] {
+				h.r.Count("long.equivocation_at_truncation", 1)
+			}
+		} else {
+			f := free[fi]
+			fi++
+			rep := f.d.Report(f.slot, 2+uint64(h.rng.Int63n(int64(f.d.Auth.Capacity))))
+			h.Inject(rep.Bytes())
+			single = append(single, rep)
+			if cut[k] {
+				h.r.Count("long.fresh_at_truncation", 1)
+			}
+		}
+		sent++
+	}
+	for _, d := range ds {
+		h.logged[d.ID]++
+	}
+	h.r.Count("long.accepted_reports", int64(sent))
+	h.r.Count("long.recent_list_truncations", int64(len(cut)))
+	return "report.long"
+}
+
+func keys(m map[int]bool) []int {
+	var out []int
+	for k := range m {
+		out = append(out, k)
+	}
+	sort.Ints(out)
+	return out
+}
+
+// runLong: histories whose accepted-report sequence is longer than the
+// server's recent-report list, with a restart pair (every slot compared)
+// after each long prefix.
+func (h *hist) runLong(variant string) {
+	step := func(class string, k int) bool {
+		if h.dead || class == "" {
+			return false
+		}
+		h.restartPair(class, k)
+		return !h.dead
+	}
+	if !step(h.opRegister(), 0) {
+		return
+	}
+	for i := 0; i < 4; i++ {
+		if !step(h.opAuthorize(), 0) {
+			return
+		}
+	}
+	h.clockForward(uint32(450 + h.rng.Intn(100)))
+	first := variant == "0"
+	// 1. from an empty recent list: positions 1000-1002 straddle the first cut (the 1001st accepted report)
+	if !step(h.opLongReports(1150, first), 0) {
+		return
+	}
+	// the positive control: every report of the burst must have been accepted
+	if got := len(h.cur.Equipment); got != 4 {
+		h.r.Inconc(fmt.Sprintf("%s: long history lost devices (%d)", h.tag, got))
+		return
+	}
+	// 2. more than half a list again, whatever the list held after loading
+	if !step(h.opLongReports(650, !first), 0) {
+		return
+	}
+	// 3. a few ordinary operations, a rotation, another long burst and a catch-up restart
+	if !step(h.opReports("equivocating"), 0) || !step(h.opConflict("same-key"), 0) || !step(h.opRotate(), 0) {
+		return
+	}
+	if !step(h.opLongReports(560, first), 1) {
+		return
+	}
+	h.r.Count("long.completed", 1)
+}
+
 // runSharedKey: a fresh ShortID is authorized with the public key of an
 // already authorized device (no ShortID conflict). Whether the server accepts
 // or refuses it, shutdown and restart must succeed afterwards.
@@ -1080,6 +1270,17 @@ func (h *hist) runSharedKey(variant string) {
 }
 
 func child(b run.Batch, r *ev.Result) {
+	if b.Kind == "long" {
+		h := newHist(b, r, 0)
+		if h == nil {
+			return
+		}
+		h.runLong(b.P("variant"))
+		r.Count("histories.long", 1)
+		r.Sample(map[string]interface{}{"history": h.tag, "ops": len(h.ops), "last_ops": tailOps(h.ops, 4)})
+		h.stop()
+		return
+	}
 	if b.Kind == "sharedkey" {
 		h := newHist(b, r, 0)
 		if h == nil {
